@@ -319,6 +319,9 @@ pub fn check_b(case: &CaseB) -> Result<Option<ObsB>, (String, String)> {
     if f.exit.is_native_crash() {
         return Err(("H8:crash_with_memory_flags".into(), f.exit.show()));
     }
+    if matches!(inproc.end, RunEnd::Init(_)) {
+        return Ok(None); // the VM never starts, so no log is opened: nothing to check beyond inertness
+    }
     let log = match log {
         Ok(b) => b,
         Err(e) => return Err(("H1:log_not_written".into(), format!("{}: {}", case.log_path, e))),
@@ -552,7 +555,15 @@ pub fn run(seed: u64, tier: &str, ev: &mut Evidence) -> Vec<Violation> {
             action: if rng.below(3) == 0 { "execute".into() } else { "run".into() },
             size_mb: if rng.below(4) == 0 { None } else { Some(*rng.pick(&SIZES_MB)) },
             log_path: (*rng.pick(&["heap.csv", "logs/heap.csv", "a/b/c/heap log.csv", "./h"])).to_string(),
-            clock: (*rng.pick(&clocks)).map(|s| s.to_string()),
+            clock: match rng.below(9) {
+                // a clock that runs backwards steadily: every reading is earlier than the one before
+                0 => Some("1700000000000000000:-1000000".to_string()),
+                // set back once, by a seeded amount, at a seeded reading (anywhere in the first 16)
+                1 | 2 => Some(format!("1700000000000000000:1000;{}:-{}", rng.below(16), 10u64.pow(3 + rng.below(10) as u32))),
+                // set back twice
+                3 => Some(format!("1700000000000000000:50;{}:-{};{}:-{}", rng.below(6), 1_000_000_000u64, 6 + rng.below(10), 3_600_000_000_000u64)),
+                _ => (*rng.pick(&clocks)).map(|s| s.to_string()),
+            },
             plan: match rng.below(4) { 0 => format!("f:*:l:{}", rng.pick(&[1u32, 2, 3, 5])), 1 => format!("f:{}:e:0", rng.below(8)), 2 => format!("f:{}:s:1", rng.below(8)), _ => String::new() },
             stale_log: rng.below(4) == 0,
             hash_seed: rng.next_u64(),
